@@ -30,6 +30,7 @@ type BoundedSpec struct {
 type PropConfig struct {
 	Packages []string `json:"packages"`
 	Sweeps   []string `json:"sweeps,omitempty"`
+	SweepPackages []string `json:"sweep_packages,omitempty"`
 	Bounded  []BoundedSpec `json:"bounded,omitempty"`
 	Note     string   `json:"note,omitempty"`
 	NotDecided []string `json:"not_decided,omitempty"`
@@ -126,6 +127,7 @@ func cmdCheck(args []string) int {
 	only := fs.String("only", "", "verify only functions whose key contains this string")
 	keep := fs.Bool("keep", false, "keep SMT files")
 	updateBaseline := fs.Bool("update-baseline", false, "rewrite the baseline obligation list")
+	updateSweep := fs.Bool("update-sweep-assumptions", false, "rewrite the list of implementors assumed not to reach non-exhaustive switches")
 	verbose := fs.Bool("v", false, "verbose")
 	timeoutFlag := fs.Int("timeout", 0, "per-obligation timeout (s)")
 	fs.Parse(args)
@@ -192,12 +194,56 @@ func cmdCheck(args []string) int {
 			results = append(results, eng.verifyLemma(p, l))
 		}
 	}
+	var sweepInfo []map[string]any
+	var sweepTrusted []string
+	if *only == "" {
+		for _, sw := range pc.Sweeps {
+			if sw == "sealed-switches" {
+				var paths []string
+				for _, pat := range pc.SweepPackages {
+					for path := range eng.pkgs {
+						if strings.HasPrefix(path, "honnef.co/go/tools/"+strings.TrimPrefix(strings.TrimSuffix(pat, "/..."), "./")) {
+							paths = append(paths, path)
+						}
+					}
+				}
+				assumed := map[string][]string{}
+				apath := filepath.Join(*verif, "sweeps", *prop+".assumed-unreachable.json")
+				if data, err := os.ReadFile(apath); err == nil {
+					json.Unmarshal(data, &assumed)
+				}
+				sr := eng.sweepSealedSwitches(paths, assumed)
+				if *updateSweep {
+					os.MkdirAll(filepath.Dir(apath), 0o755)
+					data, _ := json.MarshalIndent(sr.uncovered, "", " ")
+					os.WriteFile(apath, data, 0o644)
+					fmt.Println("wrote", apath)
+				}
+				var names []string
+				for k := range assumed {
+					names = append(names, k)
+				}
+				sort.Strings(names)
+				for _, k := range names {
+					sweepTrusted = append(sweepTrusted, fmt.Sprintf("sweep assumption (not checked): at %s the values %s never arrive", k, strings.Join(assumed[k], ", ")))
+				}
+				ur := &UnitResult{Name: "sweep.sealed-switches", Key: "sweep", Obls: sr.obls}
+				results = append(results, ur)
+				sr.info["switches_with_panicking_default_and_closed_scrutinee"] = sr.switches
+				sr.info["name"] = sw
+				sweepInfo = append(sweepInfo, sr.info)
+				sweepTrusted = append(sweepTrusted, sr.trusted...)
+			}
+		}
+	}
 	genS := time.Since(t0).Seconds() - loadS
 	var obls []*Obl
 	for _, r := range results {
 		if p := eng.pkgs[r.PkgPath]; p != nil && len(p.GoFiles) > 0 {
 			for _, o := range r.Obls {
-				o.PkgDir = filepath.Dir(p.GoFiles[0])
+				if o.PkgDir == "" {
+					o.PkgDir = filepath.Dir(p.GoFiles[0])
+				}
 			}
 		}
 		obls = append(obls, r.Obls...)
@@ -293,6 +339,8 @@ func cmdCheck(args []string) int {
 		}
 	}
 	rep.Results = results
+	rep.Sweeps = sweepInfo
+	rep.ExtraTrusted = append(rep.ExtraTrusted, sweepTrusted...)
 	rep.Outside = outside
 	rep.LoadS, rep.GenS, rep.SolveS = loadS, genS, solveS
 
